@@ -80,6 +80,9 @@ func runOnce(t *testing.T, sc *Scenario, tape *sim.Tape, tier string, keep bool)
 	return runOnceF(t, sc, tape, tier, keep, nil, false)
 }
 
+// curRun is the run index handed to scenarios (search: the index; replay: from the replay file).
+var curRun uint64
+
 func runOnceF(t *testing.T, sc *Scenario, tape *sim.Tape, tier string, keep bool, fault *sim.FaultSpec, keepIO bool) (*sim.Result, *Ctx) {
 	opts := sc.Opts
 	opts.KeepTrace = keep
@@ -87,11 +90,11 @@ func runOnceF(t *testing.T, sc *Scenario, tape *sim.Tape, tier string, keep bool
 	opts.KeepIO = keepIO
 	var ctx *Ctx
 	res := sim.Execute(t, tape, opts, func(s *sim.Sim) {
-		ctx = &Ctx{S: s, T: tape, Tier: tier}
+		ctx = &Ctx{S: s, T: tape, Tier: tier, Run: curRun}
 		sc.Run(ctx)
 	})
-	if sc.Post != nil {
-		for _, v := range sc.Post(res) {
+	if sc.Post != nil && ctx != nil {
+		for _, v := range sc.Post(ctx, res) {
 			dup := false
 			for _, o := range res.Violations {
 				if o.Sig == v.Sig {
@@ -344,6 +347,7 @@ func workerSearch(t *testing.T, sc *Scenario, tier string) {
 	for run := from; run < to; run++ {
 		sim.WatchdogInfo.Store(fmt.Sprintf("prop=%s seed=%d run=%d", sc.Prop, seed, run))
 		tape := sim.NewTape(seed, run)
+		curRun = run
 		keep := len(out.Samples) < 2
 		if sc.Enum == nil {
 			res, _ := runOnce(t, sc, tape, tier, keep)
@@ -422,6 +426,7 @@ type replayFile struct {
 	Msg      string      `json:"message"`
 	Plan     interface{} `json:"plan"`
 	Fault    *sim.FaultSpec `json:"fault_at,omitempty"`
+	Run      uint64         `json:"run"`
 }
 
 func workerReplay(t *testing.T, sc *Scenario, tier string) {
@@ -438,6 +443,7 @@ func workerReplay(t *testing.T, sc *Scenario, tier string) {
 	if rf.Tier != "" {
 		tier = rf.Tier
 	}
+	curRun = rf.Run
 	res, _ := runOnceF(t, sc, sim.ReplayTape(rf.Tape), tier, true, rf.Fault, false)
 	out := map[string]interface{}{
 		"property": sc.Prop, "signature": rf.Sig, "reproduced": hasSig(res, rf.Sig) != nil,
